@@ -45,6 +45,7 @@ type c35Step struct {
 	ReadBody  bool        `json:"read_body,omitempty"`
 	Illegal   bool        `json:"illegal,omitempty"`
 	Setup     bool        `json:"setup,omitempty"`
+	Weak      bool        `json:"weak_oracle,omitempty"` // only "no panic, well-formed frames" is asserted
 }
 
 func (s c35Step) enc() string {
@@ -69,6 +70,16 @@ type c35Stream struct {
 	cliRST   bool // the client sent RST_STREAM on it
 	endedBy  string
 	trailers bool
+	cl       int // declared content-length, -1 when absent
+	sent     int // DATA payload octets sent so far
+}
+
+// room is how many more DATA octets the declared content-length allows (large when undeclared).
+func (s *c35Stream) room() int {
+	if s.cl < 0 {
+		return 1 << 20
+	}
+	return s.cl - s.sent
 }
 
 type c35Model struct {
@@ -110,7 +121,7 @@ func (m *c35Model) add(id uint32, endStream bool) *c35Stream {
 	for x := m.nextID(); x < id; x += 2 {
 		m.skipped = append(m.skipped, x)
 	}
-	s := &c35Stream{id: id, state: mOpen, handler: true}
+	s := &c35Stream{id: id, state: mOpen, handler: true, cl: -1}
 	if endStream {
 		s.state = mHCR
 	}
@@ -139,7 +150,7 @@ var (
 	codesProto       = []uint32{errProtocol}
 	codesClosed      = []uint32{errStreamClosed, errProtocol}
 	codesRefused     = []uint32{errProtocol, errRefused}
-	c35IllegalKinds  = []string{"X-even-id", "X-lower-idle-id", "X-headers-closed", "X-headers-hcr", "X-data-hcr", "X-data-closed", "X-trailers-no-es", "X-trailers-pseudo", "X-malformed-req", "X-over-limit", "X-data-idle"}
+	c35IllegalKinds  = []string{"X-even-id", "X-lower-idle-id", "X-headers-closed", "X-headers-hcr", "X-data-hcr", "X-data-closed", "X-trailers-no-es", "X-trailers-pseudo", "X-malformed-req", "X-over-limit", "X-data-idle", "X-data-over-cl", "X-garbage-cl"}
 	c35MalformedKind = []string{"pseudo-after-regular", "dup-method", "dup-path", "unknown-pseudo", "status-pseudo", "missing-method", "missing-path", "missing-scheme", "empty-path",
 		"uppercase-name", "conn-connection", "conn-keep-alive", "conn-proxy-connection", "conn-transfer-encoding", "conn-upgrade", "te-gzip"}
 )
@@ -166,6 +177,8 @@ func c35ExpectFor(st c35Step, target *c35Stream) c35Expect {
 		return c35Expect{streamCodes: codesProto, connCodes: codesProto, http4xx: true, noDeliver: true, rule: "8.1.2 malformed request (" + st.Variant + "); 8.1.2.6 MUST stream error PROTOCOL_ERROR, MAY send an HTTP response first"}
 	case "X-over-limit":
 		return c35Expect{streamCodes: codesRefused, connCodes: nil, noDeliver: true, rule: "5.1.2 HEADERS exceeding the advertised SETTINGS_MAX_CONCURRENT_STREAMS MUST be a stream error PROTOCOL_ERROR or REFUSED_STREAM"}
+	case "X-data-over-cl":
+		return c35Expect{streamCodes: codesProto, connCodes: codesProto, rule: "8.1.2.6 DATA payload exceeding the declared content-length makes the request malformed; MUST stream error PROTOCOL_ERROR"}
 	case "X-data-idle":
 		return c35Expect{streamCodes: []uint32{errProtocol, errStreamClosed}, connCodes: codesClosed, rule: "5.1 idle: DATA on an idle stream is an error"}
 	}
@@ -267,9 +280,23 @@ func (g *c35Gen) req(endStream *bool, skip bool) c35Step {
 			st.Fields = append(st.Fields, extra)
 		}
 	}
+	if !st.EndStream && rapid.IntRange(0, 2).Draw(g.rt, g.lbl("clq")) == 0 {
+		st.Fields = append(st.Fields, [2]string{"content-length", rapid.SampledFrom([]string{"0", "0", "3", "40"}).Draw(g.rt, g.lbl("cl"))})
+	}
 	st.Prio = g.prioFor(id)
 	g.frameShape(&st, len(hpackLiteral(st.Fields)))
 	return st
+}
+
+func c35DeclaredCL(fields [][2]string) int {
+	for _, f := range fields {
+		if f[0] == "content-length" {
+			n := 0
+			fmt.Sscanf(f[1], "%d", &n)
+			return n
+		}
+	}
+	return -1
 }
 
 // legal draws one legal step applicable in the current model state (nil if none).
@@ -286,8 +313,13 @@ func (g *c35Gen) legal() *c35Step {
 	if uint32(m.active()) < m.advMax && m.maxID < 4000 {
 		opts = append(opts, opt{"req", 5})
 	}
+	// trailers end the stream: only legal when the declared content-length has been sent
+	trailerOK := m.pick(func(s *c35Stream) bool { return s.state == mOpen && (s.cl < 0 || s.room() == 0) })
 	if len(open) > 0 {
-		opts = append(opts, opt{"data", 4}, opt{"trailers", 1})
+		opts = append(opts, opt{"data", 4})
+	}
+	if len(trailerOK) > 0 {
+		opts = append(opts, opt{"trailers", 1})
 	}
 	if len(live) > 0 {
 		opts = append(opts, opt{"rst", 1}, opt{"winupd-stream", 1})
@@ -329,13 +361,20 @@ func (g *c35Gen) legal() *c35Step {
 		st = g.req(nil, false)
 	case "data":
 		st.SID = rapid.SampledFrom(open).Draw(g.rt, g.lbl("sid"))
-		st.N = rapid.IntRange(0, 40).Draw(g.rt, g.lbl("n"))
+		room := m.streams[st.SID].room()
+		if room > 40 {
+			room = 40
+		}
+		st.N = rapid.IntRange(0, room).Draw(g.rt, g.lbl("n"))
 		st.EndStream = rapid.IntRange(0, 2).Draw(g.rt, g.lbl("es")) == 0
+		if m.streams[st.SID].cl >= 0 && st.N != m.streams[st.SID].room() {
+			st.EndStream = false // ending short of the declared length would be malformed
+		}
 		if rapid.IntRange(0, 4).Draw(g.rt, g.lbl("padq")) == 0 {
 			st.Pad = 1 + rapid.IntRange(0, 10).Draw(g.rt, g.lbl("pad"))
 		}
 	case "trailers":
-		st.SID = rapid.SampledFrom(open).Draw(g.rt, g.lbl("sid"))
+		st.SID = rapid.SampledFrom(trailerOK).Draw(g.rt, g.lbl("sid"))
 		st.EndStream = true
 		st.Fields = [][2]string{{"x-trailer", "t"}}
 		g.frameShape(&st, len(hpackLiteral(st.Fields)))
@@ -394,7 +433,7 @@ func (g *c35Gen) setupFor(kind string) *c35Step {
 		if len(hcr) > 0 {
 			return nil
 		}
-		if len(open) > 0 && m.streams[open[0]].handler && rapid.Bool().Draw(g.rt, g.lbl("viaData")) {
+		if len(open) > 0 && m.streams[open[0]].handler && m.streams[open[0]].cl < 0 && rapid.Bool().Draw(g.rt, g.lbl("viaData")) {
 			if rapid.Bool().Draw(g.rt, g.lbl("viaTrailers")) {
 				return mark(c35Step{Kind: "trailers", SID: open[0], EndStream: true, Fields: [][2]string{{"x-trailer", "t"}}})
 			}
@@ -435,6 +474,25 @@ func (g *c35Gen) setupFor(kind string) *c35Step {
 			return nil // cannot fill a large limit cheaply; caller re-draws the kind
 		}
 		return mark(g.req(nil, false))
+	case "X-data-over-cl":
+		if len(m.pick(func(s *c35Stream) bool { return s.state == mOpen && s.cl >= 0 })) > 0 {
+			return nil
+		}
+		if !room {
+			live := m.pick(func(s *c35Stream) bool { return s.state != mClosed })
+			return mark(c35Step{Kind: "rst", SID: live[0], N: 0x8})
+		}
+		r := g.req(&no, false)
+		if c35DeclaredCL(r.Fields) < 0 {
+			r.Fields = append(r.Fields, [2]string{"content-length", rapid.SampledFrom([]string{"0", "0", "3", "40"}).Draw(g.rt, g.lbl("cl"))})
+		}
+		return mark(r)
+	case "X-garbage-cl":
+		if !room {
+			live := m.pick(func(s *c35Stream) bool { return s.state != mClosed })
+			return mark(c35Step{Kind: "rst", SID: live[0], N: 0x8})
+		}
+		return nil
 	case "X-lower-idle-id":
 		if len(m.skipped) > 0 {
 			return nil
@@ -519,6 +577,21 @@ func (g *c35Gen) illegal(kind string) c35Step {
 		st.XSID = fmt.Sprintf("over-%d", st.SID)
 		st.EndStream = rapid.Bool().Draw(g.rt, g.lbl("es"))
 		st.Fields = validFields(st.SID, st.XSID)
+	case "X-data-over-cl":
+		st.SID = rapid.SampledFrom(m.pick(func(s *c35Stream) bool { return s.state == mOpen && s.cl >= 0 })).Draw(g.rt, g.lbl("sid"))
+		st.N = m.streams[st.SID].room() + rapid.IntRange(1, 20).Draw(g.rt, g.lbl("over"))
+		st.EndStream = rapid.Bool().Draw(g.rt, g.lbl("es"))
+	case "X-garbage-cl":
+		// HEADERS with an unparsable content-length, then DATA: what the server must answer is
+		// a matter of HTTP semantics, so only the no-panic part is asserted
+		st.Weak = true
+		st.SID = m.nextID()
+		st.XSID = fmt.Sprintf("gcl-%d", st.SID)
+		st.Variant = rapid.SampledFrom([]string{"abc", "1x", "", "-1", "99999999999999999999"}).Draw(g.rt, g.lbl("cl"))
+		st.N = rapid.IntRange(1, 20).Draw(g.rt, g.lbl("n"))
+		st.EndStream = rapid.Bool().Draw(g.rt, g.lbl("es"))
+		st.Fields = append(validFields(st.SID, st.XSID), [2]string{"content-length", st.Variant})
+		st.Fields[0][1] = "POST"
 	case "X-data-idle":
 		st.SID = m.nextID() + 2*uint32(rapid.IntRange(0, 3).Draw(g.rt, g.lbl("ahead")))
 		st.N = rapid.IntRange(0, 30).Draw(g.rt, g.lbl("n"))
@@ -601,7 +674,10 @@ func (x *c35Run) send(st c35Step) {
 	switch st.Kind {
 	case "req", "trailers", "X-even-id", "X-lower-idle-id", "X-headers-closed", "X-headers-hcr", "X-trailers-no-es", "X-trailers-pseudo", "X-malformed-req", "X-over-limit":
 		c.write(headersFrames(st.SID, hpackLiteral(st.Fields), st.EndStream, st.Prio, pad, st.Cut))
-	case "data", "X-data-hcr", "X-data-closed", "X-data-idle":
+	case "X-garbage-cl":
+		c.write(headersFrames(st.SID, hpackLiteral(st.Fields), false, nil, -1, 0))
+		c.write(dataFrame(st.SID, make([]byte, st.N), st.EndStream, -1))
+	case "data", "X-data-hcr", "X-data-closed", "X-data-idle", "X-data-over-cl":
 		c.write(dataFrame(st.SID, make([]byte, st.N), st.EndStream, pad))
 	case "rst", "rst-crossing":
 		c.write(rawFrame(fRST, 0, st.SID, u32(uint32(st.N))))
@@ -666,6 +742,16 @@ func (x *c35Run) keyFor(st c35Step) string {
 	case "X-lower-idle-id":
 		if t := x.m.streams[x.m.maxID]; t != nil && strings.HasPrefix(t.endedBy, "rejected") {
 			key += "/after-" + t.endedBy
+		}
+	case "X-over-limit":
+		ctx := ""
+		for _, id := range x.m.order {
+			if e := x.m.streams[id].endedBy; strings.HasPrefix(e, "rejected-") && (ctx == "" || e == "rejected-request") {
+				ctx = e
+			}
+		}
+		if ctx != "" {
+			key += "/after-" + ctx
 		}
 	}
 	return key
@@ -766,10 +852,15 @@ func (x *c35Run) exec(st c35Step) bool {
 	switch st.Kind {
 	case "req":
 		target = m.add(st.SID, st.EndStream)
+		target.cl = c35DeclaredCL(st.Fields)
 	case "data":
+		target.sent += st.N
 		if st.EndStream {
 			target.state = mHCR
 		}
+	case "X-garbage-cl":
+		g := m.add(st.SID, st.EndStream)
+		g.state, g.handler, g.endedBy = mClosed, false, "garbage-cl"
 	case "trailers":
 		target.state = mHCR
 		target.trailers = true
@@ -799,6 +890,15 @@ func (x *c35Run) exec(st c35Step) bool {
 	b := x.r.cli.barrier()
 	if b == bTimeout {
 		x.rt.Skipf("C35: watchdog waiting for PING ack after %s", st.Kind)
+	}
+	if st.Weak {
+		// nothing is demanded beyond the end-of-case checks; the script stops here because
+		// the model no longer knows the state of the connection
+		x.alive = false
+		if b != bAcked {
+			x.noteEnded(b)
+		}
+		return false
 	}
 	if !st.Illegal {
 		if b != bAcked {
@@ -1220,16 +1320,38 @@ func TestC35(t *testing.T) {
 				}
 				// a second illegal step that needs no set-up, e.g. re-using the id of a request the
 				// server has just rejected
-				if rapid.Bool().Draw(rt, "second") {
+				last := x.steps[len(x.steps)-1]
+				forceOver := last.Kind == "X-malformed-req" && c35MalformedClass(last.Variant) == "request" && m.advMax <= 5
+				if rapid.Bool().Draw(rt, "second") || forceOver {
 					var app []string
 					for _, k2 := range []string{"X-headers-closed", "X-lower-idle-id", "X-data-closed", "X-even-id", "X-data-idle"} {
 						if k2 == "X-even-id" || k2 == "X-data-idle" || (len(m.pick(func(s *c35Stream) bool { return s.state == mClosed })) > 0 && k2 != "X-lower-idle-id") || (k2 == "X-lower-idle-id" && len(m.skipped) > 0) {
 							app = append(app, k2)
 						}
 					}
+					// after a rejected request: does the advertised concurrency limit still hold?
+					if m.advMax <= 5 && kind != "X-over-limit" {
+						app = append(app, "X-over-limit")
+						if kind == "X-malformed-req" {
+							app = append(app, "X-over-limit", "X-over-limit", "X-over-limit", "X-over-limit")
+						}
+					}
 					k2 := rapid.SampledFrom(app).Draw(rt, "illegal2")
 					x.classes["second-illegal"] = true
-					if !x.exec(g.illegal(k2)) {
+					x.classes["second-illegal:"+k2] = true
+					for guard := 0; guard < 8 && k2 == "X-over-limit"; guard++ {
+						s := g.setupFor(k2)
+						if s == nil {
+							break
+						}
+						if !x.exec(*s) {
+							x.finishCase()
+							return
+						}
+					}
+					if k2 == "X-over-limit" && uint32(m.active()) < m.advMax {
+						rec.Excluded("precondition of second X-over-limit not reachable")
+					} else if !x.exec(g.illegal(k2)) {
 						x.finishCase()
 						return
 					}
